@@ -1227,9 +1227,45 @@ impl ASN1Value {
                     Ok(())
                 }
             }
+            (ASN1Type::SetOf(_), ASN1Value::LinkedNestedValue { value, .. })
+            | (ASN1Type::SequenceOf(_), ASN1Value::LinkedNestedValue { value, .. })
+            | (ASN1Type::Set(_), ASN1Value::LinkedNestedValue { value, .. })
+            | (ASN1Type::Sequence(_), ASN1Value::LinkedNestedValue { value, .. })
+                if matches![**value, ASN1Value::ObjectIdentifier(_)] =>
+            {
+                // the same spelling, met through a reference to the list or struct type
+                value.link_with_type(tlds, ty, type_name)
+            }
             (ASN1Type::SetOf(_), ASN1Value::ObjectIdentifier(val))
-            | (ASN1Type::SequenceOf(_), ASN1Value::ObjectIdentifier(val))
-            | (ASN1Type::Set(_), ASN1Value::ObjectIdentifier(val))
+            | (ASN1Type::SequenceOf(_), ASN1Value::ObjectIdentifier(val)) => {
+                // A list of one element, `{ 7 }` or `{ v }`, is spelled like an object identifier value
+                let list_value = std::mem::take(&mut val.0)
+                    .into_iter()
+                    .map(|arc| match (arc.name, arc.number) {
+                        (None, Some(number)) => <u128 as TryInto<i128>>::try_into(number)
+                            .ok()
+                            .map(|n| (None, Box::new(ASN1Value::Integer(n)))),
+                        (Some(identifier), None) => Some((
+                            None,
+                            Box::new(ASN1Value::ElsewhereDeclaredValue {
+                                module: None,
+                                parent: None,
+                                identifier,
+                            }),
+                        )),
+                        _ => None,
+                    })
+                    .collect::<Option<Vec<_>>>()
+                    .ok_or_else(|| GrammarError {
+                        pdu: None,
+                        details: "Failed to interpret object identifier value as list value!"
+                            .into(),
+                        kind: GrammarErrorType::LinkerError,
+                    })?;
+                *self = ASN1Value::SequenceOrSet(list_value);
+                self.link_with_type(tlds, ty, type_name)
+            }
+            (ASN1Type::Set(_), ASN1Value::ObjectIdentifier(val))
             | (ASN1Type::Sequence(_), ASN1Value::ObjectIdentifier(val)) => {
                 // Object identifier values and sequence-like values cannot be properly distinguished
                 let mut pseudo_arcs = std::mem::take(&mut val.0);
